@@ -403,7 +403,7 @@ facts:
 		if !ok || op != token.NEQ {
 			continue
 		}
-		if (a == e && IsNilConst(b)) || (b == e && IsNilConst(a)) {
+		if (IsNilConst(b) && SameValue(a, e)) || (IsNilConst(a) && SameValue(b, e)) {
 			return true
 		}
 	}
